@@ -151,6 +151,10 @@ class VectorOp(Case):
         except ValueError as e:
             out['raised'] = 'ValueError'
         out['after'] = observe(v)
+        # aliasing probe: one more in-place assignment must not show in the immutable arrays (nor in the copy made above)
+        if self.nn and out['raised'] is None:
+            v.p0 = a[0]
+            out['probe'] = observe(v)
         return out
 
     def spec(self, I, O, err):
@@ -163,6 +167,10 @@ class VectorOp(Case):
         res.append(('names-bounds-defaults-unchanged', conj(same_list(a['mins'], b['mins']), same_list(a['maxs'], b['maxs']),
                                                             same_list(a['defaults'], b['defaults']), a['names'] == b['names'],
                                                             a['check_hitbounds'] == b['check_hitbounds'], a['accept_nan'] == b['accept_nan'])))
+        if 'probe' in O:
+            p = O['probe']
+            res.append(('bounds-defaults-not-aliased-with-values', conj(same_list(p['mins'], b['mins']), same_list(p['maxs'], b['maxs']),
+                                                                       same_list(p['defaults'], b['defaults']))))
         # values within bounds, nan only if allowed
         inb = True
         for i in range(n):
